@@ -460,6 +460,17 @@ func directedList() []directed {
 	for _, x := range []float64{0, 1, -1, 4, -4, 5, 10, -10, 19, 20, -20} {
 		add("Tanh", x)
 	}
+	// one point per evaluation method of the incomplete gamma function (region labels of the oracle)
+	for _, p := range [][2]float64{{3, 2.5}, {2.5, 1.5}, {0.3, 0.5}, {0.3, 0.01}, {0.9, 1.05}, {5.5, 2}, {2.25, 9}, {22.4, 18.875}, {40, 44}, {250, 255}, {3, 1e-17}} {
+		l = append(l, directed{"GammaP", Args{X: []float64{p[1]}, Par: p[0]}})
+	}
+	for _, p := range [][2]float64{{0, 0.5}, {1, 0.5}, {0.5, 0.1}, {0.5, 3}, {3.25, 0.5}, {3.25, 12}, {7, 1}, {2, 30}} {
+		l = append(l, directed{"BesselI", Args{X: []float64{p[1]}, Par: p[0]}})
+		l = append(l, directed{"LogBesselI", Args{X: []float64{p[1]}, Par: p[0]}})
+	}
+	for k := 1; k <= 4; k++ {
+		l = append(l, directed{"Mlgamma", Args{X: []float64{float64(k-1)/2 + 0.25}, K: k}}, directed{"Mlgamma", Args{X: []float64{10.5}, K: k}})
+	}
 	return l
 }
 
